@@ -24,7 +24,7 @@ RULE = ('cases: every non-wrapping grid shape with extents 0..N per axis (plus L
 ASSUMPTIONS = ['exhaustive only for extents <= N', 'radius >= 0, centre inside the grid, wrap_env=False (as the property states)']
 FLOORS = {'quick': {'queries': 56000, 'moore': 28000, 'neumann': 28000, 'center_as_id': 14000, 'center_as_tuple': 14000,
                     'center_as_position': 14000, 'center_fractional': 14000, 'generic_entry': 28000, 'clipped_queries': 10000,
-                    'shapes': 36, 'non_cubic_shapes': 30, 'reach:Environments.DiscreteWorld.get_moore_neighbours': 28000,
+                    'shapes': 36, 'big_shapes': 3, 'big_queries': 600, 'big_balls_1024_plus': 40, 'non_cubic_shapes': 30, 'reach:Environments.DiscreteWorld.get_moore_neighbours': 28000,
                     'reach:Environments.DiscreteWorld.get_neumann_neighbours': 28000, 'reach:Environments.DiscreteWorld.get_neighbours': 28000},
           'thorough': {'queries': 1000000, 'shapes': 200}}
 EXHAUSTIVE = {'quick': 'all shapes with extents 0..3, all centres, radii 0..max extent+1, all 64 query variants',
@@ -108,7 +108,65 @@ def run_case(ctx, case):
     ctx.state((case['cls'], tuple(case['ext'])))
 
 
+
+BIG_SHAPES = [('DiscreteWorld', [14, 13, 12]), ('DiscreteWorld', [0, 60, 50]), ('DiscreteWorld', [70, 0, 40]), ('GridWorld', [64, 48, 0]),
+              ('LineWorld', [3000, 0, 0]), ('DiscreteWorld', [11, 11, 11]), ('DiscreteWorld', [40, 30, 3]), ('DiscreteWorld', [0, 0, 2500]),
+              ('DiscreteWorld', [9, 40, 20])]
+
+
+def case_big(ctx, case):
+    """Scale regime: worlds with thousands of cells and neighbourhoods of thousands of cells (a few centres and radii per shape, all
+    representations), against the same brute-force oracle."""
+    import random as _r
+    import ECAgent.Core as core
+    import ECAgent.Environments as envs
+    rng = _r.Random(str(case))
+    m = core.Model()
+    w, h, d = case['ext']
+    env = {'DiscreteWorld': lambda: envs.DiscreteWorld(m, w, h, d), 'LineWorld': lambda: envs.LineWorld(m, w),
+           'GridWorld': lambda: envs.GridWorld(m, w, h)}[case['cls']]()
+    table = [tuple(p) for p in env.cells['pos'].tolist()]
+    index = {p: i for i, p in enumerate(table)}
+    dummy = core.Agent('probe', m)
+    pc = envs.PositionComponent(dummy, m, 0, 0, 0)
+    centres = [table[0], table[-1], table[len(table) // 2]] + [rng.choice(table) for _ in range(2)]
+    big = max(w, h, d)
+    for c in centres:
+        for r in sorted({1, 5, 8, 24, 30, big // 2, big + 1}):
+            if case['cls'] == 'LineWorld' and r > 60:
+                r = 60
+            cheb = [p for p in table if max(abs(p[0] - c[0]), abs(p[1] - c[1]), abs(p[2] - c[2])) <= r]
+            manh = [p for p in cheb if abs(p[0] - c[0]) + abs(p[1] - c[1]) + abs(p[2] - c[2]) <= r]
+            for mode, ball in (('moore', cheb), ('neumann', manh)):
+                incl = rng.random() < 0.5
+                exp_t = [p for p in ball if incl or p != c]
+                exp_i = [index[p] for p in exp_t]
+                pc.x, pc.y, pc.z = c[0] + 0.5, c[1] + 0.25, c[2]
+                for cv, ret, exp, generic in ((index[c], int, exp_i, False), (c, tuple, exp_t, True), (pc, int, exp_i, True), (c, int, exp_i, False)):
+                    if generic:
+                        got = env.get_neighbours(cv, r, incl, ret, mode)
+                    elif mode == 'moore':
+                        got = env.get_moore_neighbours(cv, r, incl, ret)
+                    else:
+                        got = env.get_neumann_neighbours(cv, r, incl, ret)
+                    ctx.ev()
+                    ctx.count('big_queries')
+                    if got != exp:
+                        bad = next((k for k, (a, b) in enumerate(zip(got, exp)) if a != b), min(len(got), len(exp)))
+                        raise CaseViolation(f'{mode} neighbourhood of {c} r={r} incl_center={incl} ret={ret.__name__} in a large world differs from the '
+                                            f'metric ball ({len(got)} returned, {len(exp)} expected; first difference at position {bad})',
+                                            shape=case, expected=exp[max(0, bad - 2):bad + 4], observed=got[max(0, bad - 2):bad + 4])
+                if len(ball) >= 1024:
+                    ctx.count('big_balls_1024_plus')
+    ctx.count('big_shapes')
+    ctx.distinct(('big', case['cls'], tuple(case['ext'])))
+
+
 def run(ctx):
+    bigs = BIG_SHAPES[:5] if ctx.tier == 'quick' else BIG_SHAPES
+    for j, (cls, ext) in enumerate(bigs):
+        if ctx.mine(j) and not ctx.full():
+            ctx.run_case({'cls': cls, 'ext': ext, 'big': True}, lambda c, cs: case_big(c, cs))
     for idx, case in enumerate(shapes(N[ctx.tier])):
         if ctx.mine(idx) and not ctx.full():
             ctx.run_case(case, run_case)
@@ -117,4 +175,4 @@ def run(ctx):
 
 
 def replay(ctx, case):
-    ctx.run_case(case, run_case)
+    ctx.run_case(case, case_big if case.get('big') else run_case)
